@@ -778,9 +778,13 @@ qb_ipcs_dispatch_connection_request(int32_t fd, int32_t revents, void *data)
 	ssize_t avail;
 
 	if (c == NULL) {
-		res = -EINVAL;
-		goto dispatch_cleanup;
+		return -EINVAL;
 	}
+	/*
+	 * msg_process() may disconnect the connection (and so drop what would
+	 * be the last reference): keep it until we are done with it.
+	 */
+	qb_ipcs_connection_ref(c);
 
 	if (revents & POLLNVAL) {
 		qb_util_log(LOG_DEBUG, "NVAL conn (%s)", c->description);
@@ -834,6 +838,11 @@ qb_ipcs_dispatch_connection_request(int32_t fd, int32_t revents, void *data)
 	do {
 		res = _process_request_(c, IPC_REQUEST_TIMEOUT);
 
+		if (c->state != QB_IPCS_CONNECTION_ESTABLISHED) {
+			/* disconnected from inside msg_process() */
+			qb_ipcs_connection_unref(c);
+			return -ESHUTDOWN;
+		}
 		if (res == -ESHUTDOWN) {
 			goto dispatch_cleanup;
 		}
@@ -876,6 +885,7 @@ dispatch_cleanup:
 	if (res != 0) {
 		qb_ipcs_disconnect(c);
 	}
+	qb_ipcs_connection_unref(c);
 	return res;
 }
 
